@@ -8,6 +8,8 @@ CONSTANTS MaxPre = 3 MaxN = 4
   Places = {"alone", "afterstop"}
   StopFlag = "per_branch"
   CopyMode = "per_branch"
+  AdapterHides = TRUE
+  VarCopy = "per_value"
   Bufs <- BufQuick
 INVARIANT DriversAgree
 INVARIANT FillReaches
